@@ -35,7 +35,7 @@ type storMix struct {
 }
 
 var storMixes = map[string]storMix{
-	"proofs":   {postPlan: 10, postOnce: 4, del: 1, buy: 3, badProof: 25, newcomerBad: 20, attest: 14, report: 1, param: 1, bank: 1, maxFiles: 4, provider: 30},
+	"proofs":   {postPlan: 10, postOnce: 4, del: 1, buy: 3, badProof: 25, newcomerBad: 20, attest: 14, report: 1, param: 3, bank: 1, maxFiles: 4, provider: 30},
 	"rewards":  {postPlan: 12, postOnce: 3, del: 1, buy: 4, badProof: 2, newcomerBad: 2, attest: 0, report: 0, param: 3, bank: 1, maxFiles: 5, provider: 20},
 	"usage":    {postPlan: 30, postOnce: 8, del: 14, buy: 10, badProof: 0, newcomerBad: 0, attest: 0, report: 0, param: 0, bank: 1, repostSameBlock: 6, maxFiles: 6, provider: 0},
 	"gauges":   {postPlan: 4, postOnce: 14, del: 0, buy: 16, badProof: 0, newcomerBad: 0, attest: 0, report: 0, param: 0, bank: 0, maxFiles: 4, provider: 0},
